@@ -89,7 +89,7 @@ def corpus_files():
     if not os.path.isdir(CORPUS): return []
     return sorted(os.path.join(CORPUS, f) for f in os.listdir(CORPUS) if f.endswith(".scripts"))
 
-def run_queries(ctx, count_quick=42, count_thorough=1400, extra_files=()):
+def run_queries(ctx, count_quick=105, count_thorough=1400, extra_files=()):
     """corpus + generated query scripts in lock step (model vs real iterators) + impl-side oracles.
     Returns the QueryRun; nothing is judged here."""
     qr = QueryRun(ctx)
@@ -152,7 +152,10 @@ def judge_queries(ctx, qr, oracles=("C05",)):
 def fill_coverage(ctx, qr):
     ctx.cov["evaluations"] += qr.qstats["accessor_lines"]
     ctx.cov["distinct_nontrivial"] += len(qr.distinct)
-    ctx.cov["traces_validated_against_impl"] = qr.qstats["accessor_lines"] if not qr.divs else 0
+    crashed = {c["script"] for c in qr.crashes}
+    unexpected = [d for d in qr.divs if d.script not in crashed]
+    ctx.cov["traces_validated_against_impl"] = qr.qstats["accessor_lines"] if not unexpected else 0
+    ctx.cov["unexpected_divergences"] = len(unexpected)
     ctx.cov["query_stats"] = {k: v for k, v in qr.qstats.items() if k not in ("classes",)}
     ctx.cov["accessor_histogram"] = qr.qstats["classes"]
     ctx.cov["scripts"] = qr.stats["scripts"]
